@@ -54,7 +54,7 @@ SRC_HEADER = "src/ezdxf/sections/header.py"
 SRCS = [SRC_ENTITY, SRC_DOC, SRC_CONST, SRC_TYPES, SRC_SECT, SRC_HEADER,
         "src/ezdxf/entities/appdata.py", "src/ezdxf/entities/xdata.py", "src/ezdxf/entities/xdict.py",
         "src/ezdxf/entities/dxfns.py", "src/ezdxf/lldxf/extendedtags.py", "src/ezdxf/lldxf/loader.py",
-        "src/ezdxf/sections/classes.py", "src/ezdxf/lldxf/repair.py"]
+        "src/ezdxf/sections/classes.py", "src/ezdxf/lldxf/repair.py", "src/ezdxf/entities/table.py", "src/ezdxf/entities/dxfobj.py"]
 
 
 # ------------------------------------------------------------------ regenerate: tables and export-order kernels from the source
@@ -106,6 +106,17 @@ ENTITY_STMTS = {
 STORAGE_STMTS = {
     "for subclass in self.xtags.subclasses[1:]:\n    tagwriter.write_tags(subclass)": "subclasses",
     "if self.embedded_objects:\n    for tags in self.embedded_objects:\n        tagwriter.write_tags(tags)": "embedded",
+}
+TABLEHEAD_STMTS = {
+    "tagwriter.write_tag2(5, self.dxf.handle)": "handle",
+    "if self.appdata:\n    self.appdata.export_dxf(tagwriter)": "appdata",
+    "if self.has_extension_dict:\n    self.extension_dict.export_dxf(tagwriter)": "xdict",
+    "if self.reactors:\n    self.reactors.export_dxf(tagwriter)": "reactors",
+    "tagwriter.write_tag2(const.OWNER_CODE, self.dxf.owner)": "owner",
+    "tagwriter.write_tag2(const.SUBCLASS_MARKER, acdb_symbol_table.name)": "subclass",
+    "tagwriter.write_tag2(70, self.dxf.count)": "count",
+    "if self.dxf.name == 'DIMSTYLE':\n    tagwriter.write_tag2(const.SUBCLASS_MARKER, 'AcDbDimStyleTable')": "dimstyle",
+    "self.export_xdata(tagwriter)": "xdata",
 }
 SECTION_STMTS = {
     "dxfversion = tagwriter.dxfversion": "",
@@ -163,14 +174,40 @@ def regenerate(ctx):
     st = [ast.unparse(s) for s in _body(_func(sect, "StoredSection", "export_dxf"))]
     if st != ["for entity in self.entities:\n    tagwriter.write_tags(entity)", "tagwriter.write_str('  0\\nENDSEC\\n')"]:
         raise ValueError("StoredSection.export_dxf outside the translated subset: " + repr(st))
-    # --- HeaderSection.export_dxf: where the custom properties are written
+    # --- HeaderSection.export_dxf: where the custom properties are written (inside the loop behind $LASTSAVEDBY; after the loop)
     hdr = ast.parse(ctx.src(SRC_HEADER))
-    anchor = []
-    for node in ast.walk(_func(hdr, "HeaderSection", "export_dxf")):
-        if isinstance(node, ast.If) and "self.custom_vars.write(tagwriter)" in ast.unparse(node):
-            anchor.append(ast.unparse(node.test))
+    hfn = _func(hdr, "HeaderSection", "export_dxf")
+    loops = [n for n in hfn.body if isinstance(n, ast.For)]
+    if len(loops) != 1:
+        raise ValueError("HeaderSection.export_dxf: expected exactly one loop over the header variables")
+    anchor = [ast.unparse(n.test) for n in ast.walk(loops[0]) if isinstance(n, ast.If) and "self.custom_vars.write(tagwriter)" in ast.unparse(n)]
     if anchor != ["name == '$LASTSAVEDBY'"]:
         raise ValueError("HeaderSection.export_dxf: custom property anchor changed: " + repr(anchor))
+    after = [n for n in hfn.body[hfn.body.index(loops[0]) + 1:] if "self.custom_vars.write(tagwriter)" in ast.unparse(n)]
+    if not after:
+        fallback = "never"
+    elif len(after) == 1 and isinstance(after[0], ast.If) and ast.unparse(after[0].body[0]) == "self.custom_vars.write(tagwriter)" and len(after[0].body) == 1:
+        test = ast.unparse(after[0].test)
+        fallback = {"not custom_vars_written": "always", "not custom_vars_written and dxfversion >= const.DXF2004": "fromR2004"}.get(test)
+        if fallback is None:
+            raise ValueError("HeaderSection.export_dxf: fall-back condition outside the translated subset: " + test)
+    else:
+        raise ValueError("HeaderSection.export_dxf: custom property fall-back outside the translated subset")
+    # --- TableHead.export_dxf (R2000+ branch) and XRecord.load_dxf_attribs
+    tab = ast.parse(ctx.src("src/ezdxf/entities/table.py"))
+    tfn = _body(_func(tab, "TableHead", "export_dxf"))
+    tif = [n for n in tfn if isinstance(n, ast.If) and ast.unparse(n.test) == "tagwriter.dxfversion >= const.DXF2000"]
+    pre = [ast.unparse(n) for n in tfn if not isinstance(n, (ast.If, ast.Assert))]
+    if len(tif) != 1 or pre != ["tagwriter.write_tag2(const.STRUCTURE_MARKER, self.DXFTYPE)", "tagwriter.write_tag2(2, self.dxf.name)"]:
+        raise ValueError("TableHead.export_dxf outside the translated subset: " + repr(pre))
+    tablehead_order = _tokens(tif[0].body, TABLEHEAD_STMTS, "TableHead.export_dxf")
+    obj = ast.parse(ctx.src("src/ezdxf/entities/dxfobj.py"))
+    xsrc = ast.unparse(_func(obj, "XRecord", "load_dxf_attribs"))
+    if "self.tags = Tags(tags[start_index:])" not in xsrc or "tags = processor.subclasses[1]" not in xsrc:
+        raise ValueError("XRecord.load_dxf_attribs outside the translated subset")
+    keep_later = "for subclass in processor.subclasses[2:]:\n            self.tags.extend(subclass)" in xsrc
+    if not keep_later and "subclasses[2" in xsrc:
+        raise ValueError("XRecord.load_dxf_attribs: handling of later subclasses outside the translated subset")
 
     def enum(name, ctors):
         return f"inductive {name} where\n" + "".join(f"  | {c}\n" for c in ctors) + "  deriving Repr, DecidableEq\n"
@@ -188,6 +225,15 @@ namespace EzdxfVerif.Gen.StorageTables
 {enum("StoragePart", ["subclasses", "embedded"])}
 /-- steps of `Drawing.export_sections` -/
 {enum("SectionPart", ["header", "classes", "tables", "blocks", "entities", "objects", "acdsdata", "stored", "eof"])}
+/-- where `HeaderSection.export_dxf` writes the custom properties when the loop did not (no $LASTSAVEDBY exported) -/
+{enum("CustomFallback", ["never", "always", "fromR2004"])}
+def customFallback : CustomFallback := .{fallback}
+/-- parts written by `TableHead.export_dxf` behind (0, TABLE), (2, name) in the R2000+ branch -/
+{enum("TableHeadPart", ["handle", "appdata", "xdict", "reactors", "owner", "subclass", "count", "dimstyle", "xdata"])}
+def tableHeadOrder : List TableHeadPart := {lean_list("." + t for t in tablehead_order)}
+/-- `XRecord.load_dxf_attribs` appends the tags of `processor.subclasses[2:]` to the payload -/
+def xrecordKeepsLaterSubclasses : Bool := {"true" if keep_later else "false"}
+
 /-- statement order of the current source (AST of entities/dxfentity.py, document.py) -/
 def baseOrder : List BasePart := {lean_list("." + t for t in base_order)}
 def entityOrder : List EntityPart := {lean_list("." + t for t in entity_order)}
